@@ -310,7 +310,7 @@ def run(ctx):
     L_max = LMAX[ctx.tier] if ctx.mode == "prod" else 2
     if cls == "random":
         rng = gen.rng_for(ctx.seed, "C04", ctx.shard, 1 if ctx.mode != "prod" else 0)
-        ncases = {"quick": 3000, "thorough": 100000}[ctx.tier] if ctx.mode == "prod" else 1000
+        ncases = {"quick": 3000, "thorough": 40000}[ctx.tier] if ctx.mode == "prod" else 1000
 
         def chk(case, ctx):
             ctx.counters["kernel_calls"] += 1
